@@ -3,13 +3,13 @@ from importlib.machinery import SourceFileLoader
 import re
 import stat
 
-from pygopherd.handlers.base import VFS_Real
+from pygopherd.handlers.base import is_real_vfs
 from pygopherd.handlers.virtual import Virtual
 
 
 class PYGHandler(Virtual):
     def canhandlerequest(self) -> bool:
-        if not isinstance(self.vfs, VFS_Real):
+        if not is_real_vfs(self.vfs):
             return False
 
         if not (
